@@ -326,3 +326,9 @@ def check(ctx: Ctx) -> None:
                 n += 1
                 ob.site(fi, c, "close frame goes through _send")
         ob.require(n >= 4, f"{n} close-frame send sites (floor 4)")
+
+    # "everything sent before the close is still receivable": a frame (data or close) that arrives while setcallback hands the queue
+    # over must find either the queue or the callback -- the hand-over happens under the receive lock
+    from ..util import LockSets as _LS
+    from .C10 import check_handover_lock
+    check_handover_lock(ctx, _LS(repo), "C03.i")
